@@ -34,9 +34,14 @@ class PartHooks(SliceHooks):
     unroll = 0
     widen_on_entry = True
     max_paths = 6000
+    watch = None            # atom of an input (the case mode): a branch / switch / select decided by it is recorded as 'cs-read'
 
     def __init__(self, m):
         SliceHooks.__init__(self, m)
+
+    def on_cond(self, I, st, inst, c):
+        if self.watch is not None and self.watch in I.cond_atoms(st, c):
+            st.ev('cs-read', inst)
 
     def call(self, I, st, inst, name, args):
         if name is None:
@@ -415,6 +420,7 @@ def replace(run, m, F, E, L):
                                ('R09.3', p3, 'sizing adds |to|-|from|; copying copies gap + replacement; same search in both scans')):
         probs, und2 = soften(probs, und)
         run.ob(rule, short(f.dem), False if probs else (None if und2 else True), probs[0] if probs else (und2[0] if und2 else okmsg), disc='replace', loc=fn_loc(f))
+    mode_blind(run, m, F, E, L, f)
     # the other replace overloads construct strings from their arguments and forward to the core
     n = 1
     for name in F.lib:
@@ -425,6 +431,69 @@ def replace(run, m, F, E, L):
             ok = any(c.startswith(f.dem.split('(')[0] + '(') and c == f.dem for c in reach)
             run.ob('R09.3', short(g.dem), True if ok else None, 'forwards to the replace core' if ok else 'does not reach the replace core: a separate implementation, not analysed', disc='forwarder', loc=fn_loc(g))
     return n
+
+
+def mode_blind(run, m, F, E, L, f):
+    """R09.8: whether a unit of the text matches the pattern depends on the case mode (ASCII letters).  replace() is interpreted
+    *exactly* (no loop abstraction) for a text, a pattern and a replacement of one unit each, the three units and the mode symbolic,
+    the search primitives still symbols.  A returning path on which nothing was searched for and the mode decided nothing (no
+    branch, switch or select computed from it, in the member or in anything it calls) does the same thing under case_sensitive and
+    case_insensitive; if text "X", pattern "x" take that path, one of the two modes gets the wrong result."""
+    class XH(PartHooks):
+        unroll = 4
+        widen_on_entry = False
+    I = Interp(m, F, E, XH(m))
+    st = State()
+    this, ret, entry = string_scene(I, st, L, 'small')
+    fo = own.make_buffer(I, st, L, 'from', 'small')
+    to = own.make_buffer(I, st, L, 'to', 'small')
+    s, fl, tl = entry['size'], st.flags['entry:from']['size'], st.flags['entry:to']['size']
+    if not (st.assume_eq0(s - 1) and st.assume_eq0(fl - 1) and st.assume_eq0(tl - 1)):
+        run.ob('R09.8', short(f.dem), None, 'scene with one-unit operands not built', disc='replace', loc=fn_loc(f))
+        return
+    cs = I.fresh_int(st, 32, 'cs', hi=1)
+    I.h.watch = cs.lin.single_atom()[0]
+    sto, fsto = entry['storage'], st.flags['entry:from']['storage']
+    try:
+        outs = I.run(I.start(f, [PtrV(ret), PtrV(this), PtrV(fo), PtrV(to), cs], st))
+    except Exception as e:
+        run.ob('R09.8', short(f.dem), None, 'not interpreted exactly: %s' % (str(e)[:80],), disc='replace', loc=fn_loc(f))
+        return
+    probs, und, nret, nsearch = [], [], 0, 0
+    for o in outs:
+        s2 = o.st
+        if o.kind != 'ret':
+            continue
+        nret += 1
+        if any(e[0] == 'search' for e in s2.events):
+            nsearch += 1
+            continue
+        if any(e[0] == 'cs-read' for e in s2.events):
+            continue
+        if any(e[0] == 'widen' for e in s2.events):
+            und.append('a returning path without a search runs through a loop that was abstracted')
+            continue
+        s3 = s2.clone()
+        tu = I.load(s3, None, PtrV(sto.obj, sto.off), 'i8', 1)
+        fu = I.load(s3, None, PtrV(fsto.obj, fsto.off), 'i8', 1)
+        if not (isinstance(tu, IntV) and isinstance(fu, IntV)):
+            und.append('units of the operands not tracked')
+            continue
+        tl_, fl_ = I.as_u(s3, tu), I.as_u(s3, fu)
+        if tl_ is None or fl_ is None or not (s3.assume_eq0(tl_ - 0x58) and s3.assume_eq0(fl_ - 0x78)):
+            continue                    # the path excludes these units (e.g. it is the exact-match or the non-letter case)
+        wit = s3.find_model([tl_, fl_, cs.lin], lambda v: v[0] == 0x58 and v[1] == 0x78)
+        if wit is not None:
+            probs.append('for a one-unit text, pattern and replacement a result is produced without a search and without the case mode having '
+                         'decided anything on that path: text "X" with pattern "x" takes it under case_sensitive and case_insensitive alike, '
+                         'and only the second may substitute; witness %s' % own.fmt_env(wit))
+        else:
+            und.append('a returning path without a search and without a decision on the case mode: no witness found')
+    if nret == 0:
+        und.append('no returning path explored')
+    run.ob('R09.8', short(f.dem), False if probs else (None if und else True),
+           probs[0] if probs else (und[0] if und else 'every returning path for one-unit operands searches with the requested mode or is decided by it '
+                                   '(%d paths, %d searching)' % (nret, nsearch)), disc='one-unit operands', loc=fn_loc(f))
 
 
 def tokenize(run, m, F, E, L):
